@@ -15,16 +15,8 @@ use std::rc::Rc;
 use vh::*;
 
 thread_local! {
-    static F12_PUBLIC: std::cell::Cell<u64> = std::cell::Cell::new(0);
-    static F12_RVB: std::cell::Cell<u64> = std::cell::Cell::new(0);
-}
-
-/// F12 (draw 0.0 selects a zero-weight first key) is reported as an oracle FAIL only when the
-/// check asks for it (it does once /verif/known_findings.json lists F12 for this property);
-/// otherwise the reproduction is counted in the STAT lines and the model (which has the same
-/// edge, proved as a witness) is compared as usual.
-fn f12_oracle() -> bool {
-    std::env::var("C03_F12_ORACLE").map(|v| v == "1").unwrap_or(false)
+    /// number of `get_random` calls made with a draw of exactly 0.0 (the former F12 edge)
+    static ZERO_DRAWS: std::cell::Cell<u64> = std::cell::Cell::new(0);
 }
 
 // ---------------------------------------------------------------------------------------------
@@ -194,15 +186,11 @@ fn case_bc(ops: &[BcOp]) {
                         outtoks.push(format!("{}:{}", k, rat(w)));
                         // property: a selected key has positive weight (it is about to become a stored operator)
                         if w <= 0.0 {
-                            if (*word >> 12) == 0 {
-                                // the documented edge F12: a draw of exactly 0.0 selects the first key
-                                F12_PUBLIC.with(|c| c.set(c.get() + 1));
-                                if f12_oracle() {
-                                    oracle = Err(format!("F12: get_random with word {} (draw 0.0) selected key {} of weight {}", word, k, w));
-                                }
-                            } else {
-                                oracle = Err(format!("get_random with word {} (draw != 0) selected key {} of weight {}", word, k, w));
-                            }
+                            // (F12 before /repo commit b694648: a draw of exactly 0.0 selected a zero-weight first key)
+                            oracle = Err(format!("get_random with word {} (draw {}) selected key {} of weight {}", word, if (*word >> 12) == 0 { "0.0" } else { "> 0" }, k, w));
+                        }
+                        if (*word >> 12) == 0 {
+                            ZERO_DRAWS.with(|c| c.set(c.get() + 1));
                         }
                     }
                     Ok(None) => {
@@ -318,7 +306,7 @@ fn helpers_mode(a: &Args) {
     }
 
     // --- BondContainer
-    // F12 witness on the public type: first key has weight 0, scripted word 0
+    // the former F12 witness on the public type: first key has weight 0, scripted word 0
     case_bc(&[BcOp::Ins(3, 0.0), BcOp::Ins(1, 2.0), BcOp::Get(0), BcOp::Get(4095), BcOp::Get(4096), BcOp::Get(u64::MAX)]);
     for _ in 0..400 * scale {
         let n = g.range(1, 14) as usize;
@@ -347,7 +335,7 @@ fn helpers_mode(a: &Args) {
         }
         case_bc(&ops);
     }
-    stat("f12_public_type_reproduced", F12_PUBLIC.with(|c| c.get()));
+    stat("bc_get_random_zero_draws", ZERO_DRAWS.with(|c| c.get()));
 }
 
 fn main() {
